@@ -4,25 +4,41 @@
   Model: the synchronising thread runs `reloadProg`, the sequence of table calls of
   `rtr_sync_receive_and_store_pdus` in reset mode, over the lock IR extracted from the current
   source: copy of the live tables into thread-private shadow tables (reads of the live table
-  under its read lock), filling of the shadows, then — on success — `pfx_table_swap`,
-  `spki_table_swap`, the two `notify_diff`s; on failure nothing touches the live tables.
-  Reader threads run any sequence of validate / enumerate / key look-ups on the live tables.
+  under its read lock), filling of the shadows, then — on success — `rtr_swap_tables` (ONE
+  critical section: write lock of the live prefix table, then of the live router-key table, both
+  swaps inside, release in reverse order), the two `notify_diff`s; on failure nothing touches the
+  live tables.  Reader threads run any sequence of validate / enumerate / key look-ups on the
+  live tables.
 
-  Theorems (per table `L` ∈ {live prefix table, live router-key table}):
+  Theorems, per table `L` ∈ {live prefix table, live router-key table}:
     `reload_two_states`   every reader critical section on `L` observes `abs L = old` or
                           `abs L = new`, decided by whether the single swap section is still ahead;
     `reload_monotone`     once the swap is over it stays over: never new and afterwards old;
     `stable_answers`      a query whose answer is the same for old and new gets that answer;
     `reload_no_race`      no data race between the reload and the readers.
+  Theorems across the two tables (the data set = prefixes AND router keys):
+    `cross_table_atomic`      in every reachable state in which the synchronising thread does not
+                              hold the prefix table's write lock, both swaps are still ahead or
+                              both are done;
+    `cross_table_two_states`  outside the combined section the PAIR of tables is (old, old) or
+                              (new, new) — never new prefixes with old keys or the reverse;
+    `never_new_pfx_then_old_keys`, `never_new_keys_then_old_pfx`
+                              a reader that has seen new data in one table never afterwards sees old
+                              data in the other;
+    `stable_pair_answers`     a query over both tables whose answer is the same under the complete
+                              old and the complete new data set gets that answer.
   Generated obligations re-checked each run: the call sequence in packets.c is the modelled one
   (`reload_sequence`); the reload is write-guarded and balanced; it write-locks each live table
-  exactly at most once (`reload_single_swap_*`); the swaps hold BOTH write locks at every root
-  assignment (`swap_atomic_*`) and assign all four roots / both containers (`swap_writes_*`).
+  at most once (`reload_single_swap_*`); on EVERY path of the reload the write section of the
+  prefix table contains the write acquisition of the router-key table, and the router-key table
+  is write-acquired nowhere else (`swap_section_combined`: the automaton `pairδ` accepts every
+  path); `rtr_swap_tables` holds BOTH live write locks at every write and assigns all four
+  roots / both containers of both tables (`swap_atomic_both`, `swap_writes_both`); the lock-free
+  workers `*_swap_locked` are called from translated code only (`unlocked_writers_translated`).
 
-  LIMIT (partial): atomicity is per table.  `pfx_table_swap` and `spki_table_swap` are two
-  separate critical sections, so a reader that combines a prefix answer with a router-key answer
-  can see the new prefixes with the old keys: `cross_table_gap` exhibits the state in the model,
-  harness/locks_harness.c demonstrates it on the real code (known finding "C06/cross-table").
+  History: until the repair (known finding "C06/cross-table", now under "fixed") the reload
+  called `pfx_table_swap` and `spki_table_swap` one after the other — two critical sections —
+  and this file proved the gap (`cross_table_gap`, kept below as a comment).
   Not modelled: the purge path after a failed undo (`rtr_purge_records_after_failed_undo` removes
   this cache's records from the live tables, C03's concern), two concurrently synchronising
   sockets (not quantified by the property).
@@ -30,6 +46,7 @@
 import RtrProofs.Locks
 import RtrProofs.LocksChecker
 import RtrProofs.LocksReload
+import RtrProofs.LocksPair
 import RtrModel.Generated.Locks
 
 namespace Rtr.C06
@@ -46,6 +63,22 @@ def shadowSpki : Nat := 3
 def call1 (f : Nat) (t : Nat) : Prog := .act (.call f [t] [] 0)
 def call2 (f : Nat) (a b : Nat) : Prog := .act (.call f [a, b] [] 0)
 
+/-- the table ids behind the class names the translator gives to the arguments of a call in
+    `rtr_sync_receive_and_store_pdus` -/
+def tblId : String → Nat
+  | "live_pfx" => livePfx
+  | "shadow_pfx" => shadowPfx
+  | "live_spki" => liveSpki
+  | "shadow_spki" => shadowSpki
+  | _ => 99
+
+/-- actual tables of `rtr_swap_tables` at its call in the reload, in the order of its IR table list
+    (whatever its C signature is: socket + shadows, or four tables) -/
+def swapTables : List Nat := ((reloadIrCalls.lookup "rtr_swap_tables").getD []).map tblId
+
+/-- the combined swap: `rtr_swap_tables(rtr_socket, pfx_shadow_table, spki_shadow_table)` -/
+def swapCall : Prog := .act (.call f_rtr_swap_tables swapTables [] 0)
+
 /-- what `rtr_sync_receive_and_store_pdus` does to the tables when `is_resetting` -/
 def reloadProg : Prog := Prog.ofList [
   call2 f_pfx_table_copy_except_socket livePfx shadowPfx,
@@ -55,8 +88,7 @@ def reloadProg : Prog := Prog.ofList [
   .loop (.alt (call1 f_pfx_table_add shadowPfx) (call1 f_pfx_table_remove shadowPfx)),        -- rtr_update_pfx_table / undo
   .loop (.alt (call1 f_spki_table_add_entry shadowSpki) (call1 f_spki_table_remove_entry shadowSpki)),
   .alt .ret .skip,                                                      -- an update failed: shadow discarded
-  call2 f_pfx_table_swap livePfx shadowPfx,
-  call2 f_spki_table_swap liveSpki shadowSpki,
+  swapCall,
   .alt (call2 f_pfx_table_notify_diff livePfx shadowPfx) .skip,
   .alt (call2 f_spki_table_notify_diff liveSpki shadowSpki) .skip
 ]
@@ -78,18 +110,26 @@ def ReloadSystem (paths : Nat → List Ev) : Prop :=
 /-- the table calls of `rtr_sync_receive_and_store_pdus` that name a LIVE table, in source order, are the modelled ones
     (calls on the update / shadow tables may be regrouped freely by refactorings):
     in reset mode `update` = `shadow`; the only calls that touch a live table are the two copies
-    (read side), the two swaps, the two notify_diffs (read side) — and the purge path
+    (read side), the combined swap, the two notify_diffs (read side) — and the purge path
     (`rtr_purge_records_after_failed_undo`: src_remove on both live tables when an undo step of a
     rejected update fails; no swap follows), which is outside this model: it is the failure
     handling judged by C03, and it leaves a third state (this cache's records removed). -/
 theorem reload_sequence : reloadCalls.filter (fun c => c.2.contains "live") = [
     ("pfx_table_copy_except_socket", ["live", "update"]),
     ("spki_table_copy_except_socket", ["live", "update"]),
-    ("pfx_table_swap", ["live", "shadow"]),
-    ("spki_table_swap", ["live", "shadow"]),
+    ("rtr_swap_tables", ["live", "shadow"]),
     ("pfx_table_notify_diff", ["live", "shadow"]),
     ("spki_table_notify_diff", ["live", "shadow"])] ∧
-    reloadCalls.any (fun c => c.1 == "rtr_purge_records_after_failed_undo") = true := by decide
+    reloadCalls.any (fun c => c.1 == "rtr_purge_records_after_failed_undo") = true ∧
+    -- the one lock-taking function of packets.c, called once, with exactly the four tables of the model
+    reloadFns = [f_rtr_swap_tables] ∧ reloadIrCalls.length = 1 ∧
+    (fns[f_rtr_swap_tables]?.map (·.ntbl)) = some 4 ∧ swapTables.length = 4 ∧
+    (∀ t ∈ [livePfx, shadowPfx, liveSpki, shadowSpki], t ∈ swapTables) := by decide
+
+/-- the lock-free workers (`pfx_table_swap_locked`, `spki_table_swap_locked`) are exactly these two and are called from
+    translated code only: every one of their call sites is a `wr` under the eyes of the checker -/
+theorem unlocked_writers_translated :
+    unlockedWriters = ["pfx_table_swap_locked", "spki_table_swap_locked"] ∧ unlockedWriterCalls = [] := by decide
 
 /-- all writes of the reload are under the write lock of their table, locks balanced
     (strictness off: `spki_table_notify_diff` reads the lists unlocked, see C16) -/
@@ -107,18 +147,44 @@ theorem readers_never_write : acqBound anyW fns fuel readerProg = some 0 := by d
 
 def bodyOf (f : Nat) : Prog := (fns[f]?.map (·.body)).getD (.act (.unknown 0))
 
-/-- `pfx_table_swap` holds the write locks of BOTH tables at each of its root assignments … -/
-theorem swap_atomic_pfx : wellLockedProg true fns ((bodyOf f_pfx_table_swap).requireAtWrites [0, 1]) = true := by decide
-/-- … and assigns exactly the four roots (in whatever order the C code does it) -/
-theorem swap_writes_pfx :
-    (∀ x ∈ (bodyOf f_pfx_table_swap).writes, x ∈ ([⟨0, .ipv4⟩, ⟨0, .ipv6⟩, ⟨1, .ipv4⟩, ⟨1, .ipv6⟩] : List Loc)) ∧
-    (∀ x ∈ ([⟨0, .ipv4⟩, ⟨0, .ipv6⟩, ⟨1, .ipv4⟩, ⟨1, .ipv6⟩] : List Loc), x ∈ (bodyOf f_pfx_table_swap).writes) := by decide
+/- Until the repair of C06/cross-table the reload called the public `pfx_table_swap` / `spki_table_swap`, and this file
+   demanded of THEM: both write locks at every root assignment, all four roots / both containers assigned, one section
+   (`swap_atomic_pfx`, `swap_writes_pfx`, `swap_atomic_spki`, `swap_sections_spki`).  The reload no longer calls them
+   (they remain as lock-taking wrappers of the private table API, judged like every API function by C16); the same
+   demands are now made of the code the reload does run: `swap_atomic_both`, `swap_writes_both`, `swap_section_combined`. -/
 
-/-- `spki_table_swap` holds both write locks at every write … -/
-theorem swap_atomic_spki : wellLockedProg true fns ((bodyOf f_spki_table_swap).requireAtWrites [0, 1]) = true := by decide
-/-- … and each of the two tables is write-locked exactly once in it -/
-theorem swap_sections_spki : acqBound (selL 0) fns fuel (bodyOf f_spki_table_swap) = some 1 ∧
-    acqBound (selL 1) fns fuel (bodyOf f_spki_table_swap) = some 1 := by decide
+/-- the body of `rtr_swap_tables` at its call in the reload -/
+def swapBody : Prog := (bodyOf f_rtr_swap_tables).inst swapTables []
+
+/-- **the two swaps are ONE critical section**: on every path through the reload, the live router-key table is
+    write-acquired only inside a write section of the live prefix table, at most once per section, and no write section
+    of the live prefix table ends without it (the automaton `pairδ` accepts every path, see RtrProofs/LocksPair.lean) -/
+theorem swap_section_combined : acceptsProg (pairδ livePfx liveSpki) fns reloadProg .out = true := by decide
+
+/-- `rtr_swap_tables` holds the write locks of BOTH live tables at each of its writes (and is well locked as it stands:
+    the lock-free workers run under the write locks of all four tables) … -/
+theorem swap_atomic_both : wellLockedProg true fns (swapBody.requireAtWrites [livePfx, liveSpki]) = true ∧
+    wellLockedProg true fns swapBody = true := by decide
+/-- … and assigns the four roots and the two containers of both pairs of tables -/
+theorem swap_writes_both :
+    ∀ x ∈ ([⟨livePfx, .ipv4⟩, ⟨livePfx, .ipv6⟩, ⟨shadowPfx, .ipv4⟩, ⟨shadowPfx, .ipv6⟩,
+            ⟨liveSpki, .hashtable⟩, ⟨liveSpki, .list⟩, ⟨shadowSpki, .hashtable⟩, ⟨shadowSpki, .list⟩] : List Loc),
+      x ∈ swapBody.writes := by decide
+
+/-- the obligation discriminates: the same two swaps as two critical sections are rejected … -/
+example : acceptsProg (pairδ livePfx liveSpki) fns (Prog.ofList [
+    .act (.acq .W livePfx 0), .act (.wr ⟨livePfx, .ipv4⟩ 0), .act (.rel livePfx 0),
+    .act (.acq .W liveSpki 0), .act (.wr ⟨liveSpki, .list⟩ 0), .act (.rel liveSpki 0)]) .out = false := by decide
+/-- … so is a prefix-table section that never takes the router-key lock, … -/
+example : acceptsProg (pairδ livePfx liveSpki) fns (Prog.ofList [
+    .act (.acq .W livePfx 0), .act (.wr ⟨livePfx, .ipv4⟩ 0), .act (.rel livePfx 0)]) .out = false := by decide
+/-- … and one that takes it on some paths only; the nested section is accepted -/
+example : acceptsProg (pairδ livePfx liveSpki) fns (Prog.ofList [
+    .act (.acq .W livePfx 0), .alt (Prog.ofList [.act (.acq .W liveSpki 0), .act (.rel liveSpki 0)]) .skip,
+    .act (.rel livePfx 0)]) .out = false ∧
+  acceptsProg (pairδ livePfx liveSpki) fns (Prog.ofList [
+    .act (.acq .W livePfx 0), .act (.acq .W liveSpki 0), .act (.wr ⟨liveSpki, .list⟩ 0), .act (.rel liveSpki 0),
+    .act (.rel livePfx 0)]) .out = true := by decide
 
 /-! ## Theorems -/
 
@@ -234,7 +300,126 @@ theorem reload_no_race {store : Loc → Nat} {paths : Nat → List Ev} (h : Relo
   · intro j hj; exact (Runs.balanced readers_wellLocked (h.2 j hj)).guarded
   · intro j hj; exact readers_no_acqW h j hj
 
-/-! ## Non-vacuity and the cross-table gap -/
+/-! ## Across the two tables -/
+
+theorem livePfx_ne_liveSpki : livePfx ≠ liveSpki := by decide
+
+/-- every path of the synchronising thread is accepted by the automaton of the combined section -/
+theorem reload_accepts {paths : Nat → List Ev} (h : ReloadSystem paths) :
+    runQ (pairδ livePfx liveSpki) .out (paths 0) = some .out := by
+  obtain ⟨o, hx, ho⟩ := h.1
+  exact acceptsProg_sound (pairδ_wr livePfx liveSpki) swap_section_combined hx ho
+
+/-- **cross_table_atomic.**  In every interleaving, in every state in which the synchronising thread does not hold the
+    write lock of the live prefix table (in particular: whenever it holds no lock, and whenever some reader is inside a
+    read section of the prefix table): both swaps are still ahead, or both are done.  There is no state "prefixes
+    swapped, router keys not yet" outside the combined section. -/
+theorem cross_table_atomic {store : Loc → Nat} {paths : Nat → List Ev} (h : ReloadSystem paths)
+    {s : Sys} (hr : Reach store paths s) (hout : (livePfx, Mode.W) ∉ (s.thr 0).held) :
+    (swapPending 0 livePfx s ∧ swapPending 0 liveSpki s) ∨ (¬ swapPending 0 livePfx s ∧ ¬ swapPending 0 liveSpki s) := by
+  have hiff := pair_pending_iff 0 livePfx liveSpki livePfx_ne_liveSpki (reload_accepts h) hr hout
+  by_cases hp : swapPending 0 livePfx s
+  · exact Or.inl ⟨hp, hiff.mp hp⟩
+  · exact Or.inr ⟨hp, fun hk => hp (hiff.mpr hk)⟩
+
+/-- the form asked for: no lock held ⇒ no state with the prefix swap over and the router-key swap ahead -/
+theorem cross_table_no_gap {store : Loc → Nat} {paths : Nat → List Ev} (h : ReloadSystem paths)
+    {s : Sys} (hr : Reach store paths s) (hnone : (s.thr 0).held = []) :
+    ¬ (¬ swapPending 0 livePfx s ∧ swapPending 0 liveSpki s) ∧ ¬ (swapPending 0 livePfx s ∧ ¬ swapPending 0 liveSpki s) := by
+  have hout : (livePfx, Mode.W) ∉ (s.thr 0).held := by rw [hnone]; simp
+  rcases cross_table_atomic h hr hout with ⟨hp, hk⟩ | ⟨hp, hk⟩
+  · exact ⟨fun hx => hx.1 hp, fun hx => hx.2 hk⟩
+  · exact ⟨fun hx => hk hx.2, fun hx => hp hx.1⟩
+
+theorem steps_reach {store : Loc → Nat} {paths : Nat → List Ev} {s s' : Sys} (hr : Reach store paths s) (hs : Steps s s') :
+    Reach store paths s' := by
+  unfold Reach at *
+  induction hs with
+  | refl => exact hr
+  | tail _ hst ih => exact .tail ih hst
+
+theorem reload_budget {store : Loc → Nat} {paths : Nat → List Ev} (h : ReloadSystem paths) {L : Nat} (hL : IsLive L)
+    {s : Sys} (hr : Reach store paths s) : countAcq (selL L) (s.thr 0).rest ≤ 1 := by
+  have := pending_antitone (w := 0) (L := L) hr
+  have h1 := reload_count h hL
+  simp only [init] at this
+  omega
+
+/-- **cross_table_two_states.**  Outside the combined section (the synchronising thread holds neither live write lock)
+    the PAIR of live tables has one of exactly two values: the complete old data set or the complete new one. -/
+theorem cross_table_two_states {store : Loc → Nat} {paths : Nat → List Ev} (h : ReloadSystem paths)
+    {s : Sys} (hr : Reach store paths s)
+    (hp : (livePfx, Mode.W) ∉ (s.thr 0).held) (hk : (liveSpki, Mode.W) ∉ (s.thr 0).held) :
+    (abs s livePfx = oldAbs store livePfx ∧ abs s liveSpki = oldAbs store liveSpki) ∨
+    (abs s livePfx = newAbs store paths livePfx ∧ abs s liveSpki = newAbs store paths liveSpki) := by
+  have hnone : ∀ L j, j ≠ 0 → countAcq (selL L) (paths j) = 0 := by
+    intro L j hj
+    have h1 := countAcq_le_anyW (L := L) (paths j)
+    have h2 := readers_no_acqW h j hj
+    omega
+  have tp := two_states 0 livePfx h.guarded (reload_count h (Or.inl rfl)) (hnone livePfx) hr hp
+  have tk := two_states 0 liveSpki h.guarded (reload_count h (Or.inr rfl)) (hnone liveSpki) hr hk
+  rcases cross_table_atomic h hr hp with ⟨pp, pk⟩ | ⟨np, nk⟩
+  · rcases tp with ⟨_, ap⟩ | ⟨n, _⟩
+    · rcases tk with ⟨_, ak⟩ | ⟨n, _⟩
+      · exact Or.inl ⟨ap, ak⟩
+      · exact absurd pk n
+    · exact absurd pp n
+  · rcases tp with ⟨p, _⟩ | ⟨_, ap⟩
+    · exact absurd p np
+    · rcases tk with ⟨p, _⟩ | ⟨_, ak⟩
+      · exact absurd p nk
+      · exact Or.inr ⟨ap, ak⟩
+
+/-- **never new prefixes and afterwards old router keys.**  A reader section on the prefix table that saw the new
+    prefixes (`¬ swapPending` there, by `reload_two_states`) is never followed by a reader section on the router-key
+    table that sees the old keys. -/
+theorem never_new_pfx_then_old_keys {store : Loc → Nat} {paths : Nat → List Ev} (h : ReloadSystem paths)
+    {s s' : Sys} (hr : Reach store paths s) (hs : Steps s s')
+    {j j' : Nat} (hj : j ∈ s.readers livePfx) (hj' : j' ∈ s'.readers liveSpki)
+    (hnew : ¬ swapPending 0 livePfx s) : abs s' liveSpki = newAbs store paths liveSpki := by
+  have hI := inv_reach h.guarded hr
+  have hout : (livePfx, Mode.W) ∉ (s.thr 0).held := reader_excludes_writer hI hj
+  have hk : ¬ swapPending 0 liveSpki s := by
+    rcases cross_table_atomic h hr hout with ⟨hp, _⟩ | ⟨_, hk⟩
+    · exact absurd hp hnew
+    · exact hk
+  have hk' := reload_monotone hs hk (reload_budget h (Or.inr rfl) hr)
+  rcases reload_two_states h (Or.inr rfl) (steps_reach hr hs) hj' with ⟨hp, _⟩ | ⟨_, hn⟩
+  · exact absurd hp hk'
+  · exact hn
+
+/-- **never new router keys and afterwards old prefixes.** -/
+theorem never_new_keys_then_old_pfx {store : Loc → Nat} {paths : Nat → List Ev} (h : ReloadSystem paths)
+    {s s' : Sys} (hr : Reach store paths s) (hs : Steps s s')
+    {j j' : Nat} (_hj : j ∈ s.readers liveSpki) (hj' : j' ∈ s'.readers livePfx)
+    (hnew : ¬ swapPending 0 liveSpki s) : abs s' livePfx = newAbs store paths livePfx := by
+  have hr' := steps_reach hr hs
+  have hI' := inv_reach h.guarded hr'
+  have hout' : (livePfx, Mode.W) ∉ (s'.thr 0).held := reader_excludes_writer hI' hj'
+  have hk' := reload_monotone hs hnew (reload_budget h (Or.inr rfl) hr)
+  have hp' : ¬ swapPending 0 livePfx s' := by
+    rcases cross_table_atomic h hr' hout' with ⟨_, hk⟩ | ⟨hp, _⟩
+    · exact absurd hk hk'
+    · exact hp
+  rcases reload_two_states h (Or.inl rfl) hr' hj' with ⟨hp, _⟩ | ⟨_, hn⟩
+  · exact absurd hp hp'
+  · exact hn
+
+/-- **stable_pair_answers.**  A query over BOTH tables whose answer is the same under the complete old and the
+    complete new data set returns that answer whenever it is evaluated outside the combined section. -/
+theorem stable_pair_answers {α : Type} (answer : (Part → Nat) → (Part → Nat) → α)
+    {store : Loc → Nat} {paths : Nat → List Ev} (h : ReloadSystem paths)
+    (hsame : answer (oldAbs store livePfx) (oldAbs store liveSpki) =
+             answer (newAbs store paths livePfx) (newAbs store paths liveSpki))
+    {s : Sys} (hr : Reach store paths s)
+    (hp : (livePfx, Mode.W) ∉ (s.thr 0).held) (hk : (liveSpki, Mode.W) ∉ (s.thr 0).held) :
+    answer (abs s livePfx) (abs s liveSpki) = answer (oldAbs store livePfx) (oldAbs store liveSpki) := by
+  rcases cross_table_two_states h hr hp hk with ⟨ap, ak⟩ | ⟨ap, ak⟩
+  · rw [ap, ak]
+  · rw [ap, ak, hsame]
+
+/-! ## Non-vacuity; what the unrepaired code satisfied -/
 
 /-- is `cs` a resolution of the branch points that takes `runPath` through a complete reload which write-locks each
     live table exactly once? -/
@@ -279,26 +464,58 @@ theorem sample_system : ReloadSystem samplePaths := by
 
 instance (w L : Nat) (s : Sys) : Decidable (swapPending w L s) := by unfold swapPending; infer_instance
 
+/-- the sample reload is accepted by the automaton of the combined section (as `reload_accepts` says of every reload) -/
+example : runQ (pairδ livePfx liveSpki) .out samplePath = some .out := by decide +kernel
+
 /-- after `k` steps of the synchronising thread: no lock held, prefix swap over, router-key swap ahead -/
 def gapAt (k : Nat) : Bool :=
   decide (((fireN (init (fun _ => 0) samplePaths) 0 k).thr 0).held = []) &&
   decide (¬ swapPending 0 livePfx (fireN (init (fun _ => 0) samplePaths) 0 k)) &&
   decide (swapPending 0 liveSpki (fireN (init (fun _ => 0) samplePaths) 0 k))
 
-theorem gap_exists : (List.range 120).any gapAt = true := by decide +kernel
+/-- after `k` steps: no lock held and both swaps over -/
+def bothDoneAt (k : Nat) : Bool :=
+  decide (((fireN (init (fun _ => 0) samplePaths) 0 k).thr 0).held = []) &&
+  decide (¬ swapPending 0 livePfx (fireN (init (fun _ => 0) samplePaths) 0 k)) &&
+  decide (¬ swapPending 0 liveSpki (fireN (init (fun _ => 0) samplePaths) 0 k))
 
-/-- **cross_table_gap (the limit of C06 in this code).**  There is a reachable state of the
-    reload system in which the synchronising thread holds no lock, the prefix-table swap is over
-    and the router-key swap is still ahead.  By `reload_two_states` a reader that now validates a
-    route and then looks up a router key gets the NEW prefixes and the OLD keys: the two tables
-    are not replaced atomically with respect to each other.  (Demonstrated on the real code by
-    harness/locks_harness.c, mode `xtable`; known finding "C06/cross-table".) -/
-theorem cross_table_gap : ∃ (paths : Nat → List Ev) (s : Sys), ReloadSystem paths ∧
-    Reach (fun _ => 0) paths s ∧ (s.thr 0).held = [] ∧
-    ¬ swapPending 0 livePfx s ∧ swapPending 0 liveSpki s := by
-  obtain ⟨k, _, hk⟩ := List.any_eq_true.1 gap_exists
-  unfold gapAt at hk
+/-- inside the combined section: the synchronising thread write-holds the prefix table, router-key swap still ahead
+    (the state that the hypothesis of `cross_table_atomic` excludes: it exists, the hypothesis is needed) -/
+def insideAt (k : Nat) : Bool :=
+  decide ((livePfx, Mode.W) ∈ ((fireN (init (fun _ => 0) samplePaths) 0 k).thr 0).held) &&
+  decide (¬ swapPending 0 livePfx (fireN (init (fun _ => 0) samplePaths) 0 k)) &&
+  decide (swapPending 0 liveSpki (fireN (init (fun _ => 0) samplePaths) 0 k))
+
+/-- both alternatives of `cross_table_atomic` occur on the sample run with no lock held (start: both ahead; end: both
+    done), the excluded combination occurs inside the section only, and on the whole sample run there is NO lock-free
+    state with the prefix swap over and the router-key swap ahead -/
+theorem sample_states : gapAt 0 = false ∧ bothDoneAt 0 = false ∧ (List.range (samplePath.length + 1)).any bothDoneAt = true ∧
+    (List.range (samplePath.length + 1)).any insideAt = true ∧ (List.range (samplePath.length + 1)).any gapAt = false := by
+  decide +kernel
+
+example : ∃ (paths : Nat → List Ev) (s : Sys), ReloadSystem paths ∧ Reach (fun _ => 0) paths s ∧ (s.thr 0).held = [] ∧
+    ¬ swapPending 0 livePfx s ∧ ¬ swapPending 0 liveSpki s := by
+  obtain ⟨k, _, hk⟩ := List.any_eq_true.1 sample_states.2.2.1
+  unfold bothDoneAt at hk
   simp only [Bool.and_eq_true, decide_eq_true_eq] at hk
   exact ⟨samplePaths, fireN (init (fun _ => 0) samplePaths) 0 k, sample_system, fireN_steps _ _ _, hk.1.1, hk.1.2, hk.2⟩
+
+/- What the UNREPAIRED code satisfied (until the fix of known finding "C06/cross-table"; `reloadProg` then contained
+   `call2 f_pfx_table_swap livePfx shadowPfx, call2 f_spki_table_swap liveSpki shadowSpki` in place of `swapCall`):
+
+     theorem gap_exists : (List.range 120).any gapAt = true := by decide +kernel
+
+     /-- cross_table_gap (the limit of C06 in that code).  There is a reachable state of the reload system in which the
+         synchronising thread holds no lock, the prefix-table swap is over and the router-key swap is still ahead.  By
+         `reload_two_states` a reader that now validates a route and then looks up a router key gets the NEW prefixes
+         and the OLD keys: the two tables are not replaced atomically with respect to each other. -/
+     theorem cross_table_gap : ∃ (paths : Nat → List Ev) (s : Sys), ReloadSystem paths ∧
+         Reach (fun _ => 0) paths s ∧ (s.thr 0).held = [] ∧
+         ¬ swapPending 0 livePfx s ∧ swapPending 0 liveSpki s
+
+   On the repaired code `cross_table_no_gap` proves the negation of its last three conjuncts for EVERY reload system and
+   every reachable state; `sample_states` shows it on the sample run.  The schedule that demonstrated the gap on the real
+   code (harness/locks_harness.c, mode `xtable`, corpus/locks/C06_cross_table.xops) is now an oracle clause of the check:
+   a run in which a reader sees new prefixes with old router keys is a violation. -/
 
 end Rtr.C06
